@@ -336,6 +336,40 @@ pub fn scale_family(kind: &str, n: usize) -> Shape {
             e = 2;
             f = 2;
         }
+        "fragment-output-members" => {
+            // one fragment entry returning a struct with n located members in ascending order
+            let ms: Vec<String> = (0..n).map(|i| format!("@location({i}) c{i}: vec4<f32>")).collect();
+            src.push_str(&format!("struct FOut {{ {} }};\n@fragment fn fs_main() -> FOut {{ var o: FOut; return o; }}\n", ms.join(", ")));
+        }
+        "fragment-output-members-desc" => {
+            let ms: Vec<String> = (0..n).rev().map(|i| format!("@location({i}) c{i}: vec4<f32>")).collect();
+            src.push_str(&format!("struct FOut {{ {} }};\n@fragment fn fs_main() -> FOut {{ var o: FOut; return o; }}\n", ms.join(", ")));
+        }
+        "vertex-input-members" => {
+            let ms: Vec<String> = (0..n).map(|i| format!("@location({i}) a{i}: vec4<f32>")).collect();
+            src.push_str(&format!("struct VIn {{ {} }};\n@vertex fn vs_main(v: VIn) -> @builtin(position) vec4<f32> {{ return v.a0; }}\n", ms.join(", ")));
+        }
+        "overrides" => {
+            for i in 0..n {
+                src.push_str(&format!("@id({i}) override ov{i}: f32 = {i}.0;\n"));
+            }
+            src.push_str("@vertex fn vs_main() -> @builtin(position) vec4<f32> { return vec4<f32>(ov0); }\n@fragment fn fs_main() -> @location(0) vec4<f32> { return vec4<f32>(ov1); }\n");
+            e = 2;
+            f = 2;
+        }
+        "groups-bindings-mixed" => {
+            // 8 groups, bindings declared in descending index order, mixed kinds
+            for i in 0..n {
+                let (g, b) = (i % 8, n - i);
+                match i % 3 {
+                    0 => src.push_str(&format!("@group({g}) @binding({b}) var<uniform> r{i}: vec4<f32>;\n")),
+                    1 => src.push_str(&format!("@group({g}) @binding({b}) var r{i}: texture_2d<f32>;\n")),
+                    _ => src.push_str(&format!("@group({g}) @binding({b}) var r{i}: sampler;\n")),
+                }
+            }
+            src.push_str("@compute @workgroup_size(1) fn cs_main() { }\n");
+            g = n as u64;
+        }
         "array-nesting" => {
             // array<array<...<vec4<f32>, 2>, 2>...> nested n deep inside one struct member
             let mut ty = "vec4<f32>".to_string();
@@ -457,17 +491,49 @@ pub fn space(thorough: bool) -> Vec<Shape> {
             out.push(type_family("wide", w, vars));
         }
     }
-    // size families
-    for (kind, sizes) in [("bindings", vec![64, 400, 1000]), ("members", vec![64, 300, 1000]), ("structs", vec![64, 300]), ("vertex-structs", vec![8, 32, 64]), ("entries", vec![16, 64, 200]), ("consts-overrides", vec![64, 300]), ("array-nesting", vec![4, 8, 12, 16])] {
-        for n in sizes {
-            out.push(scale_family(kind, n));
-        }
-    }
     out
 }
 
 /// Black-box wall clock in a child process (decides even if the hooks disappear).
+pub fn scale_cases() -> Vec<(&'static str, usize)> {
+    let mut v = vec![];
+    for (kind, sizes) in [
+        ("bindings", vec![64, 400, 1000]),
+        ("members", vec![64, 300, 1000]),
+        ("structs", vec![64, 300]),
+        ("vertex-structs", vec![8, 32, 64]),
+        ("entries", vec![16, 64, 200]),
+        ("consts-overrides", vec![64, 300]),
+        ("overrides", vec![32, 200]),
+        ("array-nesting", vec![4, 8, 12, 16]),
+        ("fragment-output-members", vec![8, 16, 32, 64]),
+        ("fragment-output-members-desc", vec![8, 32, 64]),
+        ("vertex-input-members", vec![8, 32, 64]),
+        ("groups-bindings-mixed", vec![64, 400]),
+    ] {
+        for n in sizes {
+            v.push((kind, n));
+        }
+    }
+    v
+}
+
 pub fn child(kind: &str, depth: usize) -> i32 {
+    if let Some(k) = kind.strip_prefix("scale:") {
+        // prints: <ok> <generation seconds> <naga parse+validate seconds>
+        let sh = scale_family(k, depth);
+        let t0 = std::time::Instant::now();
+        let valid = naga_check(&sh.src).is_ok();
+        let naga_s = t0.elapsed().as_secs_f64();
+        if !valid {
+            println!("2 0 {naga_s:.6}");
+            return 0;
+        }
+        let t1 = std::time::Instant::now();
+        let out = generate(&sh.src, &Config::default());
+        println!("{} {:.6} {naga_s:.6}", matches!(out, Outcome::Ok(_)) as u8, t1.elapsed().as_secs_f64());
+        return 0;
+    }
     let s = match kind {
         "flat" => {
             // reference: same number of functions, no calls between them
@@ -486,6 +552,37 @@ pub fn child(kind: &str, depth: usize) -> i32 {
     let dt = t0.elapsed().as_secs_f64();
     println!("{} {:.6}", matches!(out, Outcome::Ok(_)) as u8, dt);
     0
+}
+
+fn run_child_raw(kind: &str, depth: usize, timeout_s: u64) -> Result<String, String> {
+    let exe = std::env::current_exe().unwrap();
+    let mut ch = std::process::Command::new(exe)
+        .args(["c20-child", kind, &depth.to_string()])
+        .stdout(std::process::Stdio::piped())
+        .stderr(std::process::Stdio::null())
+        .spawn()
+        .map_err(|e| e.to_string())?;
+    let t0 = std::time::Instant::now();
+    loop {
+        match ch.try_wait() {
+            Ok(Some(_)) => break,
+            Ok(None) => {
+                if t0.elapsed().as_secs() >= timeout_s {
+                    let _ = ch.kill();
+                    let _ = ch.wait();
+                    return Err(format!("timeout after {timeout_s}s"));
+                }
+                std::thread::sleep(std::time::Duration::from_millis(5));
+            }
+            Err(e) => return Err(e.to_string()),
+        }
+    }
+    let out = ch.wait_with_output().map_err(|e| e.to_string())?;
+    let s = String::from_utf8_lossy(&out.stdout).trim().to_string();
+    if s.is_empty() {
+        return Err("no output from child".into());
+    }
+    Ok(s)
 }
 
 fn run_child(kind: &str, depth: usize, timeout_s: u64) -> Result<f64, String> {
@@ -571,6 +668,38 @@ pub fn run(tier: &str) -> i32 {
             }
         }
     }
+    // size families: linear-size inputs in child processes with a hard cap (an exponential section would never return)
+    let scs = scale_cases();
+    let sres = par_map(&scs, |(kind, n)| run_child_raw(&format!("scale:{kind}"), *n, 20));
+    let mut scale_report = vec![];
+    for ((kind, n), r) in scs.iter().zip(sres.iter()) {
+        rep.states += 1;
+        rep.evaluations += 1;
+        let key = format!("scale|{kind}|n={n}");
+        match r {
+            Ok(line) => {
+                let p: Vec<&str> = line.split_whitespace().collect();
+                let (ok, t, naga_s) = (p.first().copied().unwrap_or("0"), p.get(1).and_then(|x| x.parse::<f64>().ok()).unwrap_or(0.0), p.get(2).and_then(|x| x.parse::<f64>().ok()).unwrap_or(0.0));
+                if ok == "2" {
+                    rep.filtered("scale family: naga rejects the shader");
+                    continue;
+                }
+                if ok != "1" {
+                    rep.filtered("scale family: generator not Ok");
+                    continue;
+                }
+                let limit = (50.0 * naga_s).max(2.0);
+                scale_report.push(json!({"family": kind, "n": n, "seconds": t, "naga_seconds": naga_s}));
+                rep.nontrivial.insert(hash64(&key));
+                if t > limit {
+                    rep.violation(key, format!("took {t:.2}s, limit {limit:.2}s = max(2 s, 50 x naga's own parse+validate {naga_s:.3}s)"), json!({"family": kind, "n": n}));
+                }
+            }
+            Err(e) if e.starts_with("timeout") => rep.violation(key, "did not finish within 20 s (naga itself needs milliseconds for this shader)".to_string(), json!({"family": kind, "n": n})),
+            Err(e) => machinery(&format!("C20 scale child failed: {e}")),
+        }
+    }
+    rep.set("scale_families", json!(scale_report));
     rep.set("wall_clock_children", json!(wall));
     rep.traces_validated = rep.evaluations;
     rep.rule = format!("(1) every tile: DAG on <= {} helpers with each forward edge in {{absent, 1 statement call, 1 value call, 2 statement calls, 2 value calls, 1+1 mixed}}, composed {}x in series; (2) chain / diamond / 3-fold fan-in / fan-out families at depths {:?} with every call form at every placement context, plus 4-entry and 290-function members; (3) nested two-/three-member struct types to depth 24/40, wide structs, many variables sharing one type; (4) size families: up to 1000 bindings / 1000 members / 300 structs / 64 vertex entries x 12 structs / 200 entry points sharing helpers / 300 consts+overrides / arrays nested 16 deep, each under 2 s. Oracle: walk:function visits <= 8*E*(F+C+1), walk:type visits <= 8*G*(T+M+1) (hook aborts at the budget); wall clock of amplified members in child processes <= max(2 s, 200 x same-size flat shader).", 4, if thorough { 16 } else { 8 }, if thorough { vec![8, 16, 32, 64] } else { vec![16, 64] });
